@@ -55,13 +55,14 @@ TReset ==
   /\ done' = 0 /\ doneBy' = [a \in Actors |-> 0]
   /\ torn' = [a \in Actors |-> FALSE]
   /\ lost' = FALSE
+  /\ sawRec' = [a \in Actors |-> FALSE]
   /\ l' = l + 1 /\ tmode' = E.h
 
 \* silent: the actor of the next lock event enters an operation (takes the in-process lock)
 TEnter ==
   /\ Has("lock") /\ pc[E.a] = "idle"
   /\ \/ \E k \in {"inc", "blind"} : ObjLock(E.a, "u_want") /\ kind' = [kind EXCEPT ![E.a] = k]
-                                    /\ UNCHANGED <<file, fver, lock, mem, rver, done, doneBy, torn, lost>>
+                                    /\ UNCHANGED <<file, fver, lock, mem, rver, done, doneBy, torn, lost, sawRec>>
      \/ Load_Begin(E.a)
      \/ Save_Enter(E.a)
   /\ UNCHANGED <<l, tmode>>
@@ -102,7 +103,7 @@ TCrash == /\ Has("crash")
           /\ lock' = IF lock = E.a THEN None ELSE lock
           /\ olock' = [olock EXCEPT ![ObjOf[E.a]] = None]
           /\ pc' = [pc EXCEPT ![E.a] = "idle"]
-          /\ UNCHANGED <<file, fver, mem, rver, kind, left, done, doneBy, torn, lost>>
+          /\ UNCHANGED <<file, fver, mem, rver, kind, left, done, doneBy, torn, lost, sawRec>>
           /\ Consume
 
 TNext == TCrash \/ TReset \/ TEnter \/ TLock \/ TRead \/ TApply \/ TTrunc \/ TWrite \/ TLoad \/ TSaveTrunc \/ TSaveWrite \/ TUnlock
